@@ -35,7 +35,7 @@ import (
 	"strings"
 )
 
-const c18_reactHeader = "From Eino Require Import Base.Util Model.Tools Model.Graph Model.React Model.ReactGraph Model.ReactGenLib.\nLocal Open Scope string_scope.\n\n"
+const c18_reactHeader = "From Eino Require Import Base.Util Model.Tools Model.Graph Model.React Model.ReactGraph Model.ReactHeap Model.ReactGenLib.\nLocal Open Scope string_scope.\n\n"
 
 // copies of the small helpers of consts.go / concat.go under this file's prefix
 func c18_parseGo(fset *token.FileSet, repo string, rel ...string) (*ast.File, error) {
@@ -67,6 +67,8 @@ func init() {
 		"Definition tools_pre_handle (unk : string -> string) (rd_len : nat) (rd_has : string -> bool) (input : msg) (state : gstate) : res msg * gstate :=\n"+
 		"  (Ok input, match (if Nat.eqb rd_len 0%nat then None else rd_call_index rd_has (m_calls input)) with\n"+
 		"             | Some i => mkG (g_messages state ++ [input]) true i | None => mkG (g_messages state ++ [input]) false 0%nat end).\n"+
+		"Definition model_pre_handle_heap (pol : policy) (messageModifier : option (list N -> list N)) (input : list N) (st : hstate) : hstate := hstep pol messageModifier st (HChat input).\n"+
+		"Definition tools_pre_handle_heap (pol : policy) (input : N) (st : hstate) : hstate := hstep pol None st (HTools input).\n"+
 		"Definition model_post_branch (unk : string -> string) (toolCallChecker : list chunk -> bool) (sr : list chunk) : gkey :=\n"+
 		"  if toolCallChecker sr then GKey \"tools\" else GEnd.\n"+
 		"Definition tools_post_branch (unk : string -> string) (state : gstate) : gkey * gstate :=\n"+
@@ -84,6 +86,7 @@ func init() {
 		"Definition compile_trigger_mode : string := \"AnyPredecessor\".\n"+
 		"Definition state_init_len (max_step : nat) : nat := 0%nat.\n"+
 		"Definition state_init_cap (max_step : nat) : nat := (max_step + 1)%nat.\n"+
+		"Definition state_fresh_per_run : bool := true.\n"+
 		"Definition entry_points : list (string * string * bool) := [(\"Generate\", \"Invoke\", true); (\"Stream\", \"Stream\", true)].\n"+
 		"Definition chat_model_with_tools (has_model has_tool_calling_model bind_ok : bool) : gmodel := gl_choose_model has_model has_tool_calling_model bind_ok.\n")
 }
@@ -345,6 +348,9 @@ func (e *c18_rEnv) expr(x ast.Expr) (c18_rval, error) {
 						return c18_rval{neg("(gl_is_none " + a.text + ")"), "bool"}, nil
 					case "unk":
 						return c18_rval{neg("(String.eqb " + a.text + " \"\")"), "bool"}, nil
+					case "set":
+						// a nil test of the string set: something the model does not distinguish from emptiness
+						return c18_rval{neg("(String.eqb (unk " + c18_coqStr(types.ExprString(l)+" is nil") + ") \"\")"), "bool"}, nil
 					case "errval", "ptr":
 						// a.text says whether the value is NON-nil
 						if v.Op == token.NEQ {
@@ -988,6 +994,10 @@ func c18_extractReact(repo string) (string, string, error) {
 		{"getReturnDirectlyToolCallIndex", func() (string, error) { return c18_reactRdIndex(f, consts) }},
 		{"modelPreHandle", func() (string, error) { return c18_reactModelPre(newAgent, consts) }},
 		{"toolsNodePreHandle", func() (string, error) { return c18_reactToolsPre(newAgent, consts) }},
+		{"modelPreHandle on the heap", func() (string, error) { return c18_heapPre(newAgent, "modelPreHandle", "model_pre_handle_heap", true) }},
+		{"toolsNodePreHandle on the heap", func() (string, error) {
+			return c18_heapPre(newAgent, "toolsNodePreHandle", "tools_pre_handle_heap", false)
+		}},
 		{"modelPostBranchCondition", func() (string, error) { return c18_reactModelBranch(newAgent, consts) }},
 		{"the return-directly branch", func() (string, error) { return c18_reactToolsBranch(buildRD, consts) }},
 		{"directReturn", func() (string, error) { return c18_reactDirectConvert(buildRD, consts) }},
@@ -1638,6 +1648,50 @@ func c18_reactCompile(newAgent *ast.FuncDecl) (string, error) {
 	env := &c18_rEnv{locals: map[string]c18_rval{"config.MaxStep": {"max_step", "int"}}}
 	var maxSteps, mode, capE, lenE string
 	var werr error
+	// compose.WithGenLocalState(func(ctx context.Context) *state { return &state{Messages: X} }): is X built by
+	// the generator itself (a make inside the closure), i.e. does every run get a backing array of its own?
+	fresh := ""
+	ast.Inspect(newAgent.Body, func(n ast.Node) bool {
+		c, ok := n.(*ast.CallExpr)
+		if !ok || types.ExprString(c.Fun) != "compose.WithGenLocalState" || len(c.Args) != 1 {
+			return true
+		}
+		fl, ok := c.Args[0].(*ast.FuncLit)
+		if !ok || len(fl.Body.List) != 1 {
+			werr = fmt.Errorf("the state generator is not a single return")
+			return true
+		}
+		r, ok := fl.Body.List[0].(*ast.ReturnStmt)
+		if !ok || len(r.Results) != 1 {
+			werr = fmt.Errorf("the state generator is not a single return")
+			return true
+		}
+		u, ok := r.Results[0].(*ast.UnaryExpr)
+		var cl *ast.CompositeLit
+		if ok && u.Op == token.AND {
+			cl, _ = u.X.(*ast.CompositeLit)
+		}
+		if cl == nil || types.ExprString(cl.Type) != "state" {
+			werr = fmt.Errorf("the state generator does not return &state{…}")
+			return true
+		}
+		fresh = "true" // no Messages field: a nil slice, nothing shared
+		for _, el := range cl.Elts {
+			kv, ok := el.(*ast.KeyValueExpr)
+			if !ok {
+				werr = fmt.Errorf("the state literal has unkeyed fields")
+				return true
+			}
+			if c18_isIdent(kv.Key, "Messages") {
+				if mk, ok := kv.Value.(*ast.CallExpr); ok && c18_isIdent(mk.Fun, "make") {
+					fresh = "true"
+				} else {
+					fresh = "false" // a slice of something that outlives the run
+				}
+			}
+		}
+		return true
+	})
 	ast.Inspect(newAgent.Body, func(n ast.Node) bool {
 		c, ok := n.(*ast.CallExpr)
 		if !ok {
@@ -1675,14 +1729,15 @@ func c18_reactCompile(newAgent *ast.FuncDecl) (string, error) {
 	if werr != nil {
 		return "", werr
 	}
-	if maxSteps == "" || mode == "" || capE == "" {
+	if maxSteps == "" || mode == "" || capE == "" || fresh == "" {
 		return "", fmt.Errorf("WithMaxRunSteps / WithNodeTriggerMode / the state generator not found")
 	}
 	return "(* NewAgent: compile options and the state generator *)\n" +
 		"Definition compile_max_steps (max_step : nat) : nat := " + maxSteps + ".\n" +
 		"Definition compile_trigger_mode : string := " + c18_coqStr(mode) + ".\n" +
 		"Definition state_init_len (max_step : nat) : nat := " + lenE + ".\n" +
-		"Definition state_init_cap (max_step : nat) : nat := " + capE + ".\n", nil
+		"Definition state_init_cap (max_step : nat) : nat := " + capE + ".\n" +
+		"Definition state_fresh_per_run : bool := " + fresh + ".\n", nil
 }
 
 // func (r *Agent) Generate(ctx, input, opts ...agent.AgentOption) … { return r.runnable.Invoke(ctx, input, agent.GetComposeOptions(opts...)...) }
@@ -1780,4 +1835,180 @@ func c18_chatModelWithTools(repo string) (string, error) {
 		return "", err
 	}
 	return "(* flow/agent/utils.go: func ChatModelWithTools *)\nDefinition chat_model_with_tools (has_model has_tool_calling_model bind_ok : bool) : gmodel :=\n" + body + ".\n", nil
+}
+
+// ---- the two state pre-handlers over the heap of Model/ReactHeap.v -----------------------------
+// state.Messages as the Go slice it is: a slice header (backing array, length) into a heap of arrays.
+//
+//	state.Messages = append(state.Messages, v...) / append(state.Messages, v)   Go's append (in place or a new array)
+//	n := len(state.Messages)
+//	if messageModifier == nil { return state.Messages, nil }                    the model is handed the state's own slice
+//	x := make([]*schema.Message, len(state.Messages)); copy(x, state.Messages)  a new array holding a copy
+//	return messageModifier(ctx, S), nil      S = x | state.Messages | state.Messages[:n] | state.Messages[:n:m]
+//	                                         the modifier may write into the array of S; the model is handed its result
+//	return input, nil                        (tools node: nothing is handed to the model)
+//	state.A, state.B = f(…) / state.A = e    (fields other than Messages: no effect on the heap)
+func c18_heapPre(newAgent *ast.FuncDecl, goName, coqName string, chat bool) (string, error) {
+	fl := c18_assignedFuncLit(newAgent.Body, goName)
+	if fl == nil {
+		return "", fmt.Errorf("not found")
+	}
+	ps := c18_paramList(fl.Type)
+	if len(ps) != 3 || !strings.HasSuffix(ps[2], " *state") || strings.SplitN(ps[2], " ", 2)[0] != "state" {
+		return "", fmt.Errorf("parameters outside the translated fragment")
+	}
+	in := strings.SplitN(ps[1], " ", 2)[0]
+	slices := map[string]string{} // local slice variables -> Gallina slice expression
+	ints := map[string]string{}
+	isMsgs := func(e ast.Expr) bool { return types.ExprString(e) == "state.Messages" }
+	// a slice-valued expression
+	var sliceOf func(e ast.Expr) (string, error)
+	intOf := func(e ast.Expr) (string, error) {
+		if id, ok := e.(*ast.Ident); ok {
+			if v, ok := ints[id.Name]; ok {
+				return v, nil
+			}
+		}
+		if c, ok := e.(*ast.CallExpr); ok && c18_isIdent(c.Fun, "len") && len(c.Args) == 1 {
+			sl, err := sliceOf(c.Args[0])
+			if err != nil {
+				return "", err
+			}
+			return "(sl_len " + sl + ")", nil
+		}
+		return "", fmt.Errorf("integer expression %s", types.ExprString(e))
+	}
+	sliceOf = func(e ast.Expr) (string, error) {
+		switch x := e.(type) {
+		case *ast.Ident:
+			if v, ok := slices[x.Name]; ok {
+				return v, nil
+			}
+		case *ast.SelectorExpr:
+			if isMsgs(x) {
+				return "msgs", nil
+			}
+		case *ast.SliceExpr:
+			if x.Low == nil && x.High != nil {
+				b, err := sliceOf(x.X)
+				if err != nil {
+					return "", err
+				}
+				n, err := intOf(x.High)
+				if err != nil {
+					return "", err
+				}
+				return "(mkSlice (sl_arr " + b + ") " + n + ")", nil
+			}
+		}
+		return "", fmt.Errorf("slice expression %s", types.ExprString(e))
+	}
+	hand := func(sl string) string {
+		return "mkH h msgs (handed ++ [(" + sl + ", read h " + sl + ")])%list"
+	}
+	var tr func(l []ast.Stmt) (string, error)
+	tr = func(l []ast.Stmt) (string, error) {
+		if len(l) == 0 {
+			return "", fmt.Errorf("control reaches the end without a return")
+		}
+		switch st := l[0].(type) {
+		case *ast.AssignStmt:
+			if len(st.Lhs) == 1 && len(st.Rhs) == 1 {
+				// state.Messages = append(state.Messages, v...) | append(state.Messages, v)
+				if isMsgs(st.Lhs[0]) && st.Tok == token.ASSIGN {
+					c, ok := st.Rhs[0].(*ast.CallExpr)
+					if !ok || !c18_isIdent(c.Fun, "append") || len(c.Args) != 2 || !isMsgs(c.Args[0]) || !c18_isIdent(c.Args[1], in) {
+						return "", fmt.Errorf("assignment to state.Messages other than an append of the input")
+					}
+					v := in
+					if c.Ellipsis == token.NoPos {
+						v = "[" + in + "]"
+					}
+					if (c.Ellipsis != token.NoPos) != chat {
+						return "", fmt.Errorf("append of the input with the wrong arity")
+					}
+					r, err := tr(l[1:])
+					return "let '(h, msgs) := ReactHeap.append pol h msgs " + v + " in\n" + r, err
+				}
+				if id, ok := st.Lhs[0].(*ast.Ident); ok && st.Tok == token.DEFINE {
+					// x := make([]*schema.Message, len(S)); copy(x, S)
+					if c, ok := st.Rhs[0].(*ast.CallExpr); ok && c18_isIdent(c.Fun, "make") && len(c.Args) == 2 && len(l) > 1 {
+						if cp, ok := l[1].(*ast.ExprStmt); ok {
+							if cc, ok := cp.X.(*ast.CallExpr); ok && c18_isIdent(cc.Fun, "copy") && len(cc.Args) == 2 && c18_isIdent(cc.Args[0], id.Name) &&
+								c18_squash(types.ExprString(c.Args[1])) == c18_squash("len("+types.ExprString(cc.Args[1])+")") {
+								src, err := sliceOf(cc.Args[1])
+								if err != nil {
+									return "", err
+								}
+								slices[id.Name] = id.Name
+								r, err := tr(l[2:])
+								return "let " + id.Name + " := mkSlice (List.length h) (sl_len " + src + ") in\nlet h := (h ++ [read h " + src + "])%list in\n" + r, err
+							}
+						}
+						return "", fmt.Errorf("make outside the idiom x := make(T, len(S)); copy(x, S)")
+					}
+					// n := len(S)
+					if n, err := intOf(st.Rhs[0]); err == nil {
+						ints[id.Name] = id.Name
+						r, err := tr(l[1:])
+						return "let " + id.Name + " := " + n + " in\n" + r, err
+					}
+				}
+			}
+			// assignments to other fields of the state: no effect on the heap
+			for _, lx := range st.Lhs {
+				base, path, ok := c18_selPath(lx)
+				if !ok || base != "state" || path == "Messages" || path == "" {
+					return "", fmt.Errorf("assignment outside the translated fragment")
+				}
+			}
+			return tr(l[1:])
+		case *ast.IfStmt:
+			// if messageModifier == nil { return state.Messages, nil }
+			if st.Init == nil && st.Else == nil && c18_squash(types.ExprString(st.Cond)) == "messageModifier==nil" && len(st.Body.List) == 1 {
+				if r, ok := st.Body.List[0].(*ast.ReturnStmt); ok && len(r.Results) == 2 && c18_isIdent(r.Results[1], "nil") {
+					sl, err := sliceOf(r.Results[0])
+					if err != nil {
+						return "", err
+					}
+					rest, err := tr(l[1:])
+					return "match messageModifier with\n| None => " + hand(sl) + "\n| Some modifier_fn =>\n" + rest + "\nend", err
+				}
+			}
+			return "", fmt.Errorf("if statement outside the translated fragment")
+		case *ast.ReturnStmt:
+			if len(st.Results) != 2 || !c18_isIdent(st.Results[1], "nil") {
+				return "", fmt.Errorf("return outside the translated fragment")
+			}
+			if c18_isIdent(st.Results[0], in) && !chat {
+				return "mkH h msgs handed", nil
+			}
+			if c, ok := st.Results[0].(*ast.CallExpr); ok && c18_isIdent(c.Fun, "messageModifier") && len(c.Args) == 2 {
+				sl, err := sliceOf(c.Args[1])
+				if err != nil {
+					return "", err
+				}
+				return "let '(h, handed_slice) := gl_heap_modify modifier_fn h " + sl + " in\n" + hand("handed_slice"), nil
+			}
+			sl, err := sliceOf(st.Results[0])
+			if err != nil {
+				return "", err
+			}
+			return hand(sl), nil
+		}
+		return "", fmt.Errorf("statement outside the translated fragment")
+	}
+	body, err := tr(fl.Body.List)
+	if err != nil {
+		return "", err
+	}
+	mod := ""
+	if chat {
+		mod = "(messageModifier : option (list N -> list N)) (" + in + " : list N)"
+	} else {
+		mod = "(" + in + " : N)"
+	}
+	return "(* NewAgent: " + goName + " with state.Messages as a Go slice over the heap of Model/ReactHeap.v *)\n" +
+		"Definition " + coqName + " (pol : policy) " + mod + " (st : hstate) : hstate :=\n" +
+		"let h := h_heap st in let msgs := h_msgs st in let handed := h_handed st in\n" + body + ".\n", nil
 }
